@@ -478,3 +478,47 @@ Proof.
   set (c := Nat.max 1 (Z.to_nat (Qfloor' (p * inject_Z (Z.of_nat (length a)))))).
   rewrite code_argsort_k. unfold sliceTo. rewrite pyidx_nat. apply firstn_map.
 Qed.
+
+(* ---------- the property theorems, restated about the GENERATED definitions ---------- *)
+From Coq Require Import Permutation.
+
+Theorem src_tournament_selection fitness rank (tour q : nat) ds ws ds' :
+  valid_draws ds -> (0 < tour <= length fitness)%nat ->
+  py_tournament_selection fitness rank (Z.of_nat tour) (Z.of_nat q) ds = Some (ws, ds') ->
+  length ws = q /\
+  Forall (fun w => 0 <= w < Z.of_nat (length fitness) /\ (tour <= count_le fitness w)%nat) ws.
+Proof.
+  intros Hv [Ht1 Ht2] H. rewrite code_tournament_selection in H by auto.
+  exact (tournament_selection_spec fitness tour q ds ws ds' Hv Ht1 H).
+Qed.
+
+Theorem src_random_sample n (q : nat) replace ds r ds' :
+  valid_draws ds -> replace = true \/ Z.of_nat q <= n ->
+  py_random_sample n (Z.of_nat q) replace ds = Some (r, ds') ->
+  length r = q /\ Forall (fun v => 0 <= v < n) r /\ (replace = false -> NoDup r).
+Proof.
+  intros Hv Hpre H. rewrite code_random_sample in H by auto.
+  exact (random_sample_spec n q replace ds r ds' Hv H).
+Qed.
+
+Theorem src_weighted_selection w (q : nat) ds r ds' : w <> [] ->
+  py_random_weighted_sample w (Z.of_nat q) true ds = Some (r, ds') ->
+  length r = q /\ Forall (fun v => 0 <= v < Z.of_nat (length w)) r.
+Proof.
+  intros Hw H. rewrite code_random_weighted_sample in H by auto.
+  exact (weighted_selection_count_range w q ds r ds' Hw H).
+Qed.
+
+Theorem src_sattolo_permutation arr ds r ds' :
+  valid_draws ds -> py_sattolo_shuffle arr ds = Some (r, ds') -> Permutation arr r.
+Proof.
+  intros Hv H. rewrite code_sattolo_shuffle in H by auto. exact (sattolo_perm 0 arr ds r ds' Hv H).
+Qed.
+
+Theorem src_interval v c ds : c <> [] -> sorted c ->
+  exists i, py_binary_search_interval v c ds = Some (Z.of_nat i, ds) /\
+    (forall j, (j < i)%nat -> (nth j c 0 < v)%Q) /\ ((v <= nth i c 0)%Q \/ i = (length c - 1)%nat).
+Proof.
+  intros Hc Hs. exists (bsi v c). split; [now apply code_binary_search_interval|].
+  exact (bsi_first v c Hc Hs).
+Qed.
